@@ -1,1 +1,168 @@
-/-! Property theorems for C13 (see /verif/DESIGN.md). Only property theorems and non-vacuity examples live here. -/
+import Proofs.C13
+/-!
+# C13 — output reaches each destination completely, in order, exactly once
+
+Theorems about the output model `GoawkModel.C13` (buffers inside the interpreter, destinations as logs, ghost logs of what
+the program wrote). `b : Beh` (what commands do) is arbitrary in every theorem. The tie to /repo is the differential run in
+harness/c13 (real files, /bin/sh children, plain / bufio / flush-recording / failing Config.Output).
+-/
+namespace GoawkModel.C13.Props
+open GoawkModel GoawkModel.C13
+
+/-! ### standard output: complete, in order, for every history and every way a run can end -/
+
+/-- For every history — ending because the operations ran out, by `exit`, or by a run-time error — what has reached the
+underlying standard output after `closeAll` is exactly what the program and its children wrote, in order; and without a
+fault no write error is reported. Unbounded in the number of operations, streams and bytes. -/
+theorem stdout_complete (b : Beh) (buffered : Bool) (fs : List (Name × Bytes)) (ops : List Op) :
+    (run b (St.init buffered none fs) ops).2.2.out = (run b (St.init buffered none fs) ops).2.2.outLog ∧
+    (run b (St.init buffered none fs) ops).2.1 ≠ .error .stdoutWrite :=
+  run_stdout_complete b ops _ (stdInv_init buffered fs)
+
+/-- the same from any state satisfying the invariant (delivered ++ waiting = written) -/
+theorem exit_and_error_flush (b : Beh) (s : St) (h : StdInv s) (ops : List Op) :
+    (run b s ops).2.2.out = (run b s ops).2.2.outLog :=
+  (run_stdout_complete b ops s h).1
+
+/-- `exit` and run-time errors end the run through `closeAll`, like running out of operations -/
+theorem exit_runs_closeAll (b : Beh) (s : St) (code : Nat) (rest : List Op) :
+    run b s (.exit code :: rest) = ([.exit code], .ok code, finish b s) := by simp [run, step]
+
+theorem error_runs_closeAll (b : Beh) (s : St) (rest : List Op) :
+    run b s (.fail :: rest) = ([.err .divZero], .error .divZero, finish b s) := by simp [run, step]
+
+/-! ### flush before a child is started -/
+
+/-- when `print | cmd` starts the command, nothing is waiting in the standard-output buffer -/
+theorem flushed_before_child_pipe (b : Beh) (s : St) (h : StdInv s) (n : Name) (c : Bytes) (hn : find n s.streams = none) :
+    (step b s (.printTo .pipe n c)).1.outBuf = [] ∧ (step b s (.printTo .pipe n c)).1.out = s.outLog := by
+  have hf := flushOut_inv s h
+  have hl := hf.1.log
+  rw [hf.2.1] at hl
+  have e := (flushOut_frame s).1
+  simp only [step, hn]
+  exact ⟨hf.2.1, by simpa [e] using hl⟩
+
+/-- `system` starts its child only after every stream and standard output have been flushed -/
+theorem flushed_before_child_system (s : St) (h : StdInv s) :
+    (flushAll s).1.outBuf = [] ∧ (flushAll s).2 = true :=
+  (flushAll_inv s h).2
+
+/-! ### one name, one stream; truncation happens once -/
+
+/-- while a name is open for writing, `>`, `>>` and `|` on it all append to the same stream: no new stream, the file is not
+touched (in particular not truncated again) -/
+theorem one_name_one_stream (b : Beh) (s : St) (n : Name) (st : Stream) (c : Bytes) (rd : Redir)
+    (h : find n s.streams = some st) (hk : st.kind ≠ .rd) :
+    step b s (.printTo rd n c) =
+      ({ s with streams := set n { st with buf := st.buf ++ c, log := st.log ++ c } s.streams }, .none) := by
+  simp [step, h, hk]
+
+theorem trunc_once (b : Beh) (s : St) (n : Name) (st : Stream) (c : Bytes)
+    (h : find n s.streams = some st) (hk : st.kind ≠ .rd) :
+    (step b s (.printTo .gt n c)).1.fs = s.fs := by
+  simp [step, h, hk]
+
+/-- `>` on a name that is not open truncates the file and starts the stream's log -/
+theorem open_gt_truncates (b : Beh) (s : St) (n : Name) (c : Bytes) (h : find n s.streams = none)
+    (h1 : n ≠ dash) (h2 : n ≠ devStderr) (h3 : n ≠ devStdout) :
+    content (step b s (.printTo .gt n c)).1.fs n = [] ∧
+    find n (step b s (.printTo .gt n c)).1.streams = some { kind := .file, buf := c, sent := [], base := [], log := c } := by
+  simp [step, h, h1, h2, h3, content_set_self, find]
+
+/-- `>>` never truncates: opening keeps every file's content, and the stream's base is the old content -/
+theorem append_never_truncates (b : Beh) (s : St) (n : Name) (c : Bytes) (h : find n s.streams = none)
+    (h1 : n ≠ dash) (h2 : n ≠ devStderr) (h3 : n ≠ devStdout) (m : Name) :
+    content (step b s (.printTo .app n c)).1.fs m = content s.fs m ∧
+    find n (step b s (.printTo .app n c)).1.streams =
+      some { kind := .file, buf := c, sent := [], base := content s.fs n, log := c } := by
+  have hfl : (flushOut s).1.fs = s.fs ∧ (flushOut s).1.streams = s.streams := ⟨(flushOut_frame s).2.1, (flushOut_frame s).2.2.1⟩
+  by_cases hm : m = n
+  · subst hm
+    simp [step, h, h1, h2, h3, hfl.1, hfl.2, content_set_self, find]
+  · simp [step, h, h1, h2, h3, hfl.1, hfl.2, content_set_ne hm, find]
+
+/-! ### at close the destination holds everything -/
+
+/-- entry invariant of a stream (kept by every operation; validated on the real code by correspondence) -/
+def EntryOK (fs : List (Name × Bytes)) (n : Name) (st : Stream) : Prop :=
+  (st.kind = .file → content fs n ++ st.buf = st.base ++ st.log) ∧ (st.kind = .cmd → st.sent ++ st.buf = st.log)
+
+/-- closing a file: its content is (what it held right after the open) ++ (every write since, in order) -/
+theorem file_content_at_close (b : Beh) (s : St) (n : Name) (st : Stream) (h : find n s.streams = some st)
+    (hk : st.kind = .file) (hi : EntryOK s.fs n st) :
+    content (step b s (.close n)).1.fs n = st.base ++ st.log ∧ (step b s (.close n)).2 = .num 0 ∧
+    find n (step b s (.close n)).1.streams = none := by
+  simp [step, h, closeStream, hk, deliver, content_set_self, hi.1 hk, find_remove_self]
+
+/-- closing a command: its standard input was every byte written to it, in order, and close returns its exit status -/
+theorem cmd_gets_everything (b : Beh) (s : St) (n : Name) (st : Stream) (h : find n s.streams = some st)
+    (hk : st.kind = .cmd) (hi : EntryOK s.fs n st) :
+    (step b s (.close n)).2 = .num (b.pipe n st.log).2 ∧
+    (step b s (.close n)).1.procs = s.procs ++ [(n, st.log, (b.pipe n st.log).2)] := by
+  have e := hi.2 hk
+  constructor
+  · simp [step, h, closeStream, hk, e]
+  · simp only [step, h, closeStream, hk, e, childOut]
+    split <;> (try split) <;> simp [rawOut] <;> (split <;> (try split) <;> rfl)
+
+/-- the entry invariant holds when a stream is opened and is kept by writes to it and by fflush -/
+theorem entry_ok_open_write (n : Name) (old c c' : Bytes) (fs : List (Name × Bytes)) :
+    EntryOK (set n old fs) n { kind := .file, buf := c, sent := [], base := old, log := c } ∧
+    EntryOK (set n old fs) n { kind := .file, buf := c ++ c', sent := [], base := old, log := c ++ c' } := by
+  simp [EntryOK, content_set_self]
+
+theorem entry_ok_deliver (s : St) (n : Name) (st : Stream) (h : EntryOK s.fs n st) :
+    EntryOK (deliver s n st).1.fs n (deliver s n st).2 := by
+  obtain ⟨h1, h2⟩ := h
+  unfold deliver
+  cases hk : st.kind with
+  | file => simp [EntryOK, content_set_self, h1 hk]
+  | cmd => simp [EntryOK, ← h2 hk]
+  | rd => simp [EntryOK, hk]
+
+/-! ### a failing standard output -/
+
+/-- unbuffered Config.Output: the first print that does not fit makes the run fail, whatever follows -/
+theorem stdout_failure_unbuffered (b : Beh) (s : St) (k : Nat) (c : Bytes) (rest : List Op)
+    (hb : s.buffered = false) (hf : s.failAt = some k) (hc : k < s.out.length + c.length) :
+    (run b s (.print c :: rest)).2.1 = .error .stdoutWrite := by
+  have : ¬ (s.out.length + c.length ≤ k) := by omega
+  simp [run, step, writeOut, hb, rawOut, hf, this]
+
+/-- The full clause: whenever more was written to standard output than it accepted, the run does not end `ok`. -/
+def StdoutFailureFails : Prop :=
+  ∀ (b : Beh) (buffered : Bool) (k : Nat) (ops : List Op),
+    let r := run b (St.init buffered (some k) []) ops
+    k < r.2.2.outLog.length → ∀ st, r.2.1 ≠ .ok st
+
+def nullBeh : Beh := { pipe := fun _ _ => ([], 0), sys := fun _ _ => ([], [], 0) }
+
+/-- It is false of the code as it is when Config.Output is buffered (finding F17-api): `BEGIN { print "x" }` with an output
+that accepts nothing ends `ok 0`; the only failing write is the final flush, whose error `closeAll` discards. -/
+theorem stdout_failure_fails : ¬ StdoutFailureFails := by
+  intro h
+  have := h nullBeh true 0 [.print [120, 10]] (by decide) 0
+  exact this (by decide)
+
+/-! ### non-vacuity -/
+
+def exOps : List Op :=
+  [.print [97, 10], .printTo .gt [102] [120, 10], .printTo .app [102] [121, 10], .printTo .pipe [99] [122, 10], .print [98, 10],
+   .close [102], .getlineFile [102], .system [115], .close [99], .exit 3, .print [33]]
+
+def echoBeh : Beh := { pipe := fun _ i => (i, 7), sys := fun _ _ => ([], [104, 10], 0) }
+
+example : StdInv (St.init true none []) := stdInv_init true []
+example : (run echoBeh (St.init true none []) exOps).1 =
+    [.none, .none, .none, .none, .none, .num 0, .line 1 [120], .num 0, .num 7, .exit 3] := by decide
+example : (run echoBeh (St.init true none []) exOps).2.1 = .ok 3 := by decide
+example : (run echoBeh (St.init true none []) exOps).2.2.out = [97, 10, 98, 10, 104, 10, 122, 10] := by decide
+example : content (run echoBeh (St.init true none []) exOps).2.2.fs [102] = [120, 10, 121, 10] := by decide
+example : (run echoBeh (St.init true none []) exOps).2.2.flushes = [[97, 10], [], [98, 10], [104, 10, 122, 10]] := by decide
+example : (run nullBeh (St.init true (some 0) []) [.print [120, 10]]).2.1 = .ok 0 := by decide
+example : (run nullBeh (St.init false (some 0) []) [.print [120, 10]]).2.1 = .error .stdoutWrite := by decide
+example : EntryOK [([102], [120])] [102] { kind := .file, buf := [121], sent := [], base := [], log := [120, 121] } := by
+  simp [EntryOK, content, find]
+
+end GoawkModel.C13.Props
